@@ -129,54 +129,6 @@ theorem p2shPattern_eq (flags : Nat) (s : Bytes) :
   rw [byteAt_eq s 0 _ (by decide) (by decide), byteAt_eq s 1 20 (by decide) (by decide), byteAt_eq s 22 _ (by decide) (by decide)]
   simp [Bool.and_assoc, Op.OP_HASH160, Op.OP_EQUAL]
 
-theorem hexChars_length (d : Bytes) : (d.flatMap hexOfByte).length = 2 * d.length := by
-  induction d with
-  | nil => rfl
-  | cons b t ih => simp [List.flatMap_cons, hexOfByte, ih]; omega
-
-theorem toHex_length (d : Bytes) : (toHex d).toList.length = 2 * d.length := by
-  unfold toHex
-  rw [String.toList_ofList, hexChars_length]
-
-/-- every name in the implementation's opcode-name table is short -/
-theorem names_short : Gen.opName.all (fun s => decide (s.toList.length ≤ 30)) = true := by decide +kernel
-
-theorem opNameOf_short (n : Nat) : (opNameOf n).toList.length ≤ 30 := by
-  unfold opNameOf
-  by_cases h : n < Gen.opName.length
-  · have hm : Gen.opName[n] ∈ Gen.opName := List.getElem_mem h
-    have := List.all_eq_true.mp names_short _ hm
-    simpa [List.getD, List.getElem?_eq_getElem h] using this
-  · simp [List.getD, List.getElem?_eq_none (by omega : Gen.opName.length ≤ n)]
-
-theorem cutLimit_ge (i : Nat) : 1029 ≤ cutLimit i := by
-  unfold cutLimit numberPrefix pad4
-  simp only [List.length_cons, List.length_append, List.length_replicate, List.length_nil]
-  omega
-
-theorem cutLine_id (i : Nat) (l : Line) (h : l.kind = .op → l.text.toList.length ≤ 1029) : cutLine i l = l := by
-  unfold cutLine
-  cases hk : l.kind with
-  | op =>
-    simp only
-    have := h hk
-    have hc := cutLimit_ge i
-    unfold cutText
-    rw [List.take_of_length_le (by omega), String.ofList_toList]
-    cases l; simp_all
-  | desc => rfl
-  | header => rfl
-
-/-- when no instruction text exceeds 1029 characters nothing is cut -/
-theorem cutAll_id : ∀ (ls : List Line) (i : Nat), (∀ l ∈ ls, l.kind = .op → l.text.toList.length ≤ 1029) → cutAll i ls = ls := by
-  intro ls
-  induction ls with
-  | nil => intro i _; rfl
-  | cons l t ih =>
-    intro i h
-    simp only [cutAll]
-    rw [cutLine_id i l (h l (by simp)), ih (i + 1) (fun x hx => h x (by simp [hx]))]
-
 /-- a successful operation executed exactly the instruction decoded at the position, and the new
     position is the one behind it -/
 theorem step_getOp (cx : Ctx) (e : SEE) (pc : Bytes) :
@@ -198,7 +150,7 @@ theorem step_getOp (cx : Ctx) (e : SEE) (pc : Bytes) :
       · refine post_bind' ?_; intro e2; exact post_pure _ _ ⟨g, hg, rfl⟩
       · refine post_bind' ?_; intro e2; exact post_pure _ _ ⟨g, hg, rfl⟩
 
-theorem countOp_keeps (e e1 : SEE) (opcode : Nat) (h : countOp e opcode = .ok e1) :
+theorem countOp_keeps_stack (e e1 : SEE) (opcode : Nat) (h : countOp e opcode = .ok e1) :
     e1.stack = e.stack ∧ e1.cond = e.cond := by
   unfold countOp at h
   split at h
@@ -220,7 +172,7 @@ theorem step_push (cx : Ctx) (e e' : SEE) (pc pc' : Bytes) (g : GotOp) (hs : ste
   · cases hc : countOp e g.opcode with
     | error x => simp [hc, bind, Except.bind] at hs
     | ok e1 =>
-      obtain ⟨hk1, hk2⟩ := countOp_keeps e e1 _ hc
+      obtain ⟨hk1, hk2⟩ := countOp_keeps_stack e e1 _ hc
       simp only [hc, bind, Except.bind] at hs
       split at hs
       · cases hs
@@ -239,5 +191,93 @@ theorem step_push (cx : Ctx) (e e' : SEE) (pc pc' : Bytes) (g : GotOp) (hs : ste
               · cases heq
                 cases hs
                 simp [hk1, hk2]
+
+theorem sizeCheck_ok {e e' : SEE} (h : sizeCheck e = .ok e') : e' = e := by
+  unfold sizeCheck at h
+  split at h
+  · cases h
+  · cases h; rfl
+
+/-- an executed push-only instruction (`opcode ≤ OP_16`) appends its payload to the stack and leaves the
+    conditional state alone; `OP_RESERVED` never succeeds -/
+theorem step_smallint (cx : Ctx) (e e' : SEE) (pc pc' : Bytes) (g : GotOp) (hs : step cx e pc = .ok (e', pc'))
+    (hg : getOp pc = some g) (hall : e.cond.allTrue = true) (hlo : Op.OP_PUSHDATA4 < g.opcode) (hop : g.opcode ≤ Op.OP_16) :
+    e'.stack = e.stack ++ [payloadOf g] ∧ e'.cond = e.cond := by
+  unfold step at hs
+  simp only [hg] at hs
+  split at hs
+  · cases hs
+  · cases hc : countOp e g.opcode with
+    | error x => simp [hc, bind, Except.bind] at hs
+    | ok e1 =>
+      obtain ⟨hk1, hk2⟩ := countOp_keeps_stack e e1 _ hc
+      simp only [hc, bind, Except.bind] at hs
+      split at hs
+      · cases hs
+      · split at hs
+        · cases hs
+        · have hc1 : ¬ ((e.cond.allTrue && decide (g.opcode ≤ Op.OP_PUSHDATA4)) = true) := by
+            simp only [hall, Bool.true_and, decide_eq_true_eq]; omega
+          rw [if_neg hc1, if_pos (by simp [hall])] at hs
+          have hcases : g.opcode = 79 ∨ g.opcode = 80 ∨ g.opcode = 81 ∨ g.opcode = 82 ∨ g.opcode = 83 ∨ g.opcode = 84 ∨ g.opcode = 85 ∨
+              g.opcode = 86 ∨ g.opcode = 87 ∨ g.opcode = 88 ∨ g.opcode = 89 ∨ g.opcode = 90 ∨ g.opcode = 91 ∨ g.opcode = 92 ∨
+              g.opcode = 93 ∨ g.opcode = 94 ∨ g.opcode = 95 ∨ g.opcode = 96 := by
+            simp only [Op.OP_PUSHDATA4, Op.OP_16] at hlo hop; omega
+          rcases hcases with h | h | h | h | h | h | h | h | h | h | h | h | h | h | h | h | h | h <;>
+          · simp only [h, Opcode.ofNat, execOpcode] at hs
+            try simp only [bind, Except.bind] at hs
+            first
+            | (simp [fail] at hs; done)
+            | (cases hsz : sizeCheck _ with
+               | error x => rw [hsz] at hs; simp at hs
+               | ok e2 =>
+                 rw [hsz] at hs
+                 have := sizeCheck_ok hsz
+                 simp only [pure, Except.pure] at hs
+                 cases hs
+                 subst this
+                 simp only [payloadOf, h, hk1, hk2, Op.OP_1, Op.OP_16, Op.OP_1NEGATE]
+                 refine ⟨?_, trivial⟩
+                 congr 2
+                 simp
+                 decide +kernel)
+
+/-- an executed instruction of a push-only script appends its payload to the stack -/
+theorem step_pushonly (cx : Ctx) (e e' : SEE) (pc pc' : Bytes) (g : GotOp) (hs : step cx e pc = .ok (e', pc'))
+    (hg : getOp pc = some g) (hall : e.cond.allTrue = true) (hop : g.opcode ≤ Op.OP_16) :
+    e'.stack = e.stack ++ [payloadOf g] ∧ e'.cond = e.cond := by
+  by_cases hlo : g.opcode ≤ Op.OP_PUSHDATA4
+  · have := step_push cx e e' pc pc' g hs hg hall hlo
+    have hp : payloadOf g = g.data := by
+      unfold payloadOf
+      simp only [Op.OP_PUSHDATA4, Op.OP_1, Op.OP_16, Op.OP_1NEGATE] at hlo ⊢
+      have h1 : ¬ (81 ≤ g.opcode) := by omega
+      have h2 : ¬ (g.opcode = 79) := by omega
+      simp [h1, h2]
+    rw [hp]; exact this
+  · exact step_smallint cx e e' pc pc' g hs hg hall (by omega) hop
+
+/-- `IsPushOnly`: every instruction has an opcode up to `OP_16` -/
+theorem isPushOnly_ops : ∀ (n : Nat) (s : Bytes), s.length ≤ n → isPushOnly s = true → ∀ p ∈ decodeFrom s, p.2.opcode ≤ Op.OP_16 := by
+  intro n
+  induction n with
+  | zero =>
+    intro s hs _ p hp
+    have : s = [] := List.length_eq_zero_iff.mp (by omega)
+    subst this
+    rw [decodeFrom_none (by rfl)] at hp; cases hp
+  | succ n ih =>
+    intro s hs hv p hp
+    rw [isPushOnly] at hv
+    split at hv
+    · rename_i hnone; rw [decodeFrom_none hnone] at hp; cases hp
+    · rename_i g hg
+      rw [decodeFrom_some hg] at hp
+      split at hv
+      · cases hv
+      · rename_i hle
+        rcases List.mem_cons.mp hp with rfl | hp'
+        · simp only; omega
+        · exact ih g.rest (by have := getOp_rest_lt hg; omega) hv p hp'
 
 end Btcdeb.Model
